@@ -13,6 +13,7 @@ import (
 	"encoding/json"
 	"fmt"
 	"os"
+	"os/exec"
 	"runtime"
 	"sort"
 	"strings"
@@ -46,7 +47,7 @@ type bounds struct {
 }
 
 func tierBounds(thorough bool) bounds {
-	b := bounds{maxNodes: 4, rotUpTo: 3, histories: []string{"once", "twice", "cache", "reopen", "other", "closedcm", "hostclose", "rtinst"}, fullHistoryUpTo: 3, tailFormNodes: 3, shapeAllUpTo: 2,
+	b := bounds{maxNodes: 4, rotUpTo: 3, histories: []string{"once", "twice", "cache", "reopen", "other", "closedcm", "closedmid", "hostclose", "rtinst"}, fullHistoryUpTo: 3, tailFormNodes: 3, shapeAllUpTo: 2,
 		chainPattern: []string{"d", "i", "dim", "dhr"}}
 	for d := 1; d <= 40; d++ {
 		b.chainDepths = append(b.chainDepths, d)
@@ -130,7 +131,10 @@ type unitResult struct {
 	Outcomes map[string]int64 `json:"outcomes"`
 	Viols    []violOut        `json:"viols"`
 	Harness  string           `json:"harness,omitempty"`
-	Sample   any              `json:"sample,omitempty"`
+	// verdicts that did not repeat when the case was evaluated a second time in the same process;
+	// the supervisor decides about them after re-running the unit in fresh processes
+	Unconfirmed []violOut `json:"unconfirmed,omitempty"`
+	Sample      any       `json:"sample,omitempty"`
 }
 
 type caseVerdict struct {
@@ -243,8 +247,8 @@ func runUnit(u unit, b bounds) (res unitResult) {
 		return
 	}
 	addViol := func(id caseID, p *program, v viol) {
-		// confirm in-process before reporting: the run is deterministic, so a verdict that does not
-		// repeat is a harness problem, never a violation
+		// confirm in-process before reporting; a verdict that does not repeat goes to the supervisor,
+		// which re-runs the unit in fresh processes (see confirmIntermittent)
 		var base *outcome
 		if id.Listen {
 			bo := runCase(p, runSpec{Engine: id.Engine, History: "once"}).Out
@@ -258,7 +262,7 @@ func runUnit(u unit, b bounds) (res unitResult) {
 			}
 		}
 		if !found && !strings.HasPrefix(v.Sig, "engines-differ") {
-			res.Harness = fmt.Sprintf("verdict %q did not repeat for %+v", v.Sig, id)
+			res.Unconfirmed = append(res.Unconfirmed, violOut{v.Sig, clip(v.What), id})
 			return
 		}
 		res.Viols = append(res.Viols, violOut{v.Sig, clip(v.What), id})
@@ -310,6 +314,10 @@ func runUnit(u unit, b bounds) (res unitResult) {
 						continue
 					}
 					if u.Shape > 0 && h != "once" {
+						continue
+					}
+					// the state of the engine's module index does not depend on the listener set
+					if h == "closedmid" && !s.All {
 						continue
 					}
 					// lifecycle histories only where they can differ from "once"
@@ -409,6 +417,17 @@ func main() {
 	}
 	units := buildUnits(b)
 
+	if len(os.Args) > 3 && os.Args[2] == "recheck-unit" {
+		// one unit in a fresh process, for the supervisor's intermittency decision
+		var idx int
+		fmt.Sscan(os.Args[3], &idx)
+		if idx < 0 || idx >= len(units) {
+			fw.Fatalf("recheck-unit: index %d out of range", idx)
+		}
+		out, _ := json.Marshal(runUnit(units[idx], b))
+		fmt.Println("RESULT " + base64.StdEncoding.EncodeToString(out))
+		return
+	}
 	if fw.IsChild() {
 		var deadline time.Time
 		if v := os.Getenv("C20_DEADLINE_UNIX"); v != "" {
@@ -439,6 +458,7 @@ func main() {
 	samples := fw.NewSampler(16)
 	var evals, distinct int64
 	var nTree, nChain, skipped int64
+	var pending []pendingVerdict
 	t0 := time.Now()
 	done := fw.Supervise(fw.SupOpts{N: len(units), Workers: runtime.NumCPU(), CaseTimeout: 300 * time.Second, Mode: run.Tier,
 		Env: []string{"GOMAXPROCS=1", "GOGC=400", fmt.Sprintf("C20_DEADLINE_UNIX=%d", run.Deadline.Unix())}, Stop: run.Expired},
@@ -478,8 +498,12 @@ func main() {
 			for _, v := range r.Viols {
 				run.Violation(v.Sig, v.What, v.Replay)
 			}
+			for _, v := range r.Unconfirmed {
+				pending = append(pending, pendingVerdict{i, v})
+			}
 			samples.Add(r.Sample)
 		})
+	unrepeatable := confirmIntermittent(run, units, pending)
 	if done < len(units) || skipped > 0 {
 		run.Capped("budget")
 	}
@@ -501,7 +525,7 @@ func main() {
 		Bounds: map[string]any{"max_nodes": b.maxNodes, "edge_kinds": "d,i,m,h,t,r", "body_shapes": fmt.Sprintf("%d (exit form x surplus operands) combinations x 4 signature rotations on every tree with <= %d nodes, one combination per tree with %d nodes; history once", numShapeCombos, b.shapeAllUpTo, b.shapeAllUpTo+1), "tail_form_family": fmt.Sprintf("edge kinds d,i,m,h,t,u,v,w,r; trees with <= %d nodes using u, v or w", b.tailFormNodes), "outcomes": "R,T,P,E,S", "signature_rotations_up_to_nodes": b.rotUpTo,
 			"chain_depths": "1..40", "chain_patterns": b.chainPattern, "chain_leaves": "R,T,P,E", "histories": b.histories, "all_listener_sets_under_every_history_up_to_nodes": b.fullHistoryUpTo, "engines": []string{"interpreter", "compiler"},
 			"listener_sets": "every subset of the nodes + all-functions factory (trees); full/even/odd/root/leaf/all-functions (chains)"},
-		Extra: map[string]any{"units": len(units), "units_done": int64(done) - skipped, "tree_units": nTree, "chain_units": nChain, "units_by_size": byN, "explore_wall_s": time.Since(t0).Seconds()},
+		Extra: map[string]any{"units": len(units), "units_done": int64(done) - skipped, "tree_units": nTree, "chain_units": nChain, "units_by_size": byN, "explore_wall_s": time.Since(t0).Seconds(), "unrepeatable_mismatches": unrepeatable},
 	}, []string{
 		"the stack iterator is expected to list the frames of the current api.Function.Call only (a host function that re-enters the guest starts a new call boundary), on both engines",
 		"values are compared after masking to the value type's width (upper bits of 32-bit slots are not part of the value)",
@@ -509,6 +533,98 @@ func main() {
 		"a tail call may be notified as a nested call or as return-then-call; any other shape is a violation",
 		"one function per call site: recursion and repeated calls of the same function are not enumerated",
 	})
+}
+
+// ---------------------------------------------------------------- verdicts that did not repeat
+
+type pendingVerdict struct {
+	unit int
+	v    violOut
+}
+
+func sigFamily(sig string) string {
+	if k := strings.IndexByte(sig, ':'); k > 0 {
+		return sig[:k]
+	}
+	return sig
+}
+
+// genericFamilies are the model-mismatch signature families built by firstDiff and the result /
+// engine comparisons: their remaining segments depend on which event happened to differ, so an
+// address- or timing-dependent defect may show under another signature of the same family.
+var genericFamilies = map[string]bool{"stack": true, "values": true, "sequence": true, "slice-length": true,
+	"listener-fault": true, "results": true, "engines-differ": true}
+
+// confirmIntermittent decides about verdicts that showed once in a child and did not repeat when
+// the case was evaluated again in the same process (runs 1 and 2). The unit is run 4 more times,
+// each in a fresh process. A model mismatch of the same family showing in >= 2 of the 6 runs is
+// reported as a violation "<signature>:intermittent"; one that showed only once is recorded in the
+// evidence (unrepeatable_mismatches) and does not affect the exit code. Never a harness error.
+func confirmIntermittent(run *fw.Run, units []unit, pending []pendingVerdict) []any {
+	notes := []any{}
+	self, err := os.Executable()
+	if err != nil {
+		fw.Fatalf("os.Executable: %v", err)
+	}
+	const maxUnits = 60
+	done := map[int][]unitResult{}
+	for _, pv := range pending {
+		fam := sigFamily(pv.v.Sig)
+		reruns, seen := done[pv.unit]
+		if !seen {
+			if len(done) >= maxUnits {
+				notes = append(notes, map[string]any{"unit": units[pv.unit], "signature": pv.v.Sig, "case": pv.v.Replay, "shown": "1/2", "note": "not re-run in fresh processes: more than 60 units had unrepeatable verdicts"})
+				continue
+			}
+			for k := 0; k < 4; k++ {
+				cmd := exec.Command(self, run.Tier, "recheck-unit", fmt.Sprint(pv.unit))
+				cmd.Env = append(os.Environ(), "GOMAXPROCS=1", "GOGC=400")
+				out, err := cmd.Output()
+				var r unitResult
+				ok := false
+				for _, l := range strings.Split(string(out), "\n") {
+					if strings.HasPrefix(l, "RESULT ") {
+						if raw, e := base64.StdEncoding.DecodeString(strings.TrimSpace(l[7:])); e == nil && json.Unmarshal(raw, &r) == nil {
+							ok = true
+						}
+					}
+				}
+				if !ok {
+					// a crash of the fresh process is itself a (non-model) observation: keep it visible
+					r = unitResult{Harness: fmt.Sprintf("fresh process failed: %v", err)}
+				}
+				reruns = append(reruns, r)
+			}
+			done[pv.unit] = reruns
+		}
+		shown, crashed := 1, 0
+		for _, r := range reruns {
+			if r.Harness != "" {
+				crashed++
+				continue
+			}
+			hit := false
+			for _, w := range append(append([]violOut{}, r.Viols...), r.Unconfirmed...) {
+				if w.Sig == pv.v.Sig || (genericFamilies[fam] && sigFamily(w.Sig) == fam) {
+					hit = true
+				}
+			}
+			if hit {
+				shown++
+			}
+		}
+		ratio := fmt.Sprintf("%d/6", shown)
+		if shown >= 2 {
+			what := fmt.Sprintf("intermittent: a %q model mismatch showed in %s runs of this tree (1 in the exploring process, 0 when the case was repeated in that process, %d in 4 fresh processes", fam, ratio, shown-1)
+			if crashed > 0 {
+				what += fmt.Sprintf("; %d fresh processes died", crashed)
+			}
+			run.Violation(pv.v.Sig+":intermittent", what+"): "+pv.v.What, pv.v.Replay)
+			continue
+		}
+		notes = append(notes, map[string]any{"unit": units[pv.unit], "signature": pv.v.Sig, "case": pv.v.Replay, "shown": ratio, "fresh_processes_died": crashed, "what": pv.v.What})
+	}
+	return notes
 }
 
 // ---------------------------------------------------------------- replay / show
